@@ -169,6 +169,60 @@ theorem oversized_is_error (stream : Bytes) (sched gs : List Nat) (max : Nat)
   · rw [hr, hnone n hnl] at h2; cases h2
   · omega
 
+/-- on a connection that stays open, the reader only ever returns a head that holds the blank line -/
+theorem open_ok_has_blank_line : ∀ (fuel : Nat) (buf : Bytes) (cap : Nat) (stream : Bytes) (sched gs : List Nat)
+    (max : Nat) (r : Bytes), stream.length < fuel →
+    readHeadersLoop fuel buf cap stream sched gs max false = .ok r → containsTwoNewlines r = true := by
+  intro fuel
+  induction fuel with
+  | zero => intro buf cap stream _ _ _ r h; omega
+  | succ fuel ih =>
+    intro buf cap stream sched gs max r hf h
+    unfold readHeadersLoop at h
+    by_cases hmax : buf.length ≥ max
+    · simp [hmax] at h
+    · simp only [hmax, ↓reduceIte] at h
+      generalize hcap : (if cap < buf.length + 512 then
+          (if cap ≥ (if buf.length + 512 > max then buf.length + (buf.length + 512 - max) else buf.length + 512) then cap
+            else (if buf.length + 512 > max then buf.length + (buf.length + 512 - max) else buf.length + 512)) + gs.headD 0
+        else cap) = cap' at h
+      generalize hk : min (min (Nat.max (sched.headD (min cap' max - buf.length)) 1) (min cap' max - buf.length)) stream.length = k at h
+      by_cases hz : k = 0
+      · simp [hz] at h
+      · simp only [hz, ↓reduceIte] at h
+        split at h
+        · cases h
+        · split at h
+          · split at h
+            · rename_i htwo _
+              simp only [Except.ok.injEq] at h
+              rw [← h]; exact htwo
+            · cases h
+          · exact ih _ _ _ _ _ _ r (by simp only [List.length_drop]; omega) h
+
+/-- **stalled heads are errors, never partial requests**: a client that sends any bytes without a blank line among
+them — a complete request line and `Host` line included — and then keeps the connection open without sending more is
+never handed to the handlers as a request, for every way its bytes were split into reads. (`complete_head_needs_no_eof`
+is the converse: once the blank line is there, the reader does not wait for more.) -/
+theorem stalled_is_error (stream : Bytes) (sched gs : List Nat) (max : Nat)
+    (hnone : ∀ n, containsTwoNewlines (stream.take n) = false) :
+    ∀ r, readHeaders stream sched gs max false ≠ .ok r := by
+  intro r h
+  have h2 := open_ok_has_blank_line _ [] 512 stream sched gs max r (by omega) h
+  obtain ⟨n, _, hr, _⟩ := readHeaders_spec stream sched gs max false r h
+  rw [hr, hnone n] at h2
+  cases h2
+
+/-- the premise is satisfiable by a prefix that would parse as a request on its own: `GET / HTTP/1.1␍␊Host: a␍␊Auth` -/
+example : ∀ n, containsTwoNewlines (([71, 69, 84, 32, 47, 32, 72, 84, 84, 80, 47, 49, 46, 49, 13, 10, 72, 111, 115, 116, 58, 32, 97, 13, 10, 65, 117, 116, 104] : Bytes).take n) = false := by
+  have hb : ∀ n, n < 30 → containsTwoNewlines (([71, 69, 84, 32, 47, 32, 72, 84, 84, 80, 47, 49, 46, 49, 13, 10, 72, 111, 115, 116, 58, 32, 97, 13, 10, 65, 117, 116, 104] : Bytes).take n) = false := by
+    decide +kernel
+  intro n
+  by_cases h : n < 30
+  · exact hb n h
+  · rw [List.take_of_length_le (by simp only [List.length_cons, List.length_nil]; omega)]
+    exact hb 29 (by omega)
+
 /-- **the request body, for every schedule**: exactly the first `min(content-length, limit)` bytes of what
 follows the head (early bytes first, then the socket) — never more, also when bytes of the next request are
 already waiting on the socket. -/
